@@ -70,12 +70,23 @@ for r in RECL_ALL:
 # adversarial family "recycle behind a reader's back" (seed C01: lost reference count increment with type-stable memory)
 for r in ["lfrc_tl", "lfrc", "hp", "qsbr", "ebr"]:
     _c01_quick.append(run("reclaim", "proto_" + r, c=3, opt={"fixed": 1, "cells": 2}, weight=1.0))
+# adversarial family "ABA under a conditional acquire" (finding F-C01-2: hazard_eras::acquire_if_equal): immediate address reuse
+for r in ["he", "hed"]:
+    _c01_quick.append(run("reclaim", "proto_" + r, c=2, heap="reuse", opt={"fixed": 2, "T": 3, "m": 2}, weight=1.0))
+for r in RECL_ALL:
+    _c01_thorough.append(run("reclaim", "proto_" + r, c=2, heap="reuse", opt={"fixed": 2, "T": 3, "m": 2}, weight=1.0))
+    if r != "stamp":
+        _c01_thorough.append(run("reclaim", "proto_" + r, c=2, heap="reuse", opt={"ops": 0x24, "T": 3, "m": 2}, weight=3.0))
+_c01_thorough.append(run("reclaim", "proto_he", c=3, heap="reuse", opt={"fixed": 2, "T": 3, "m": 2}, weight=6.0))
+_c01_thorough.append(run("reclaim", "proto_he", c=2, d=1, mode="wmm", heap="reuse", opt={"fixed": 2, "T": 3, "m": 2}, weight=2.0))
 PLAN["C01"] = {
-    "quick": _c01_quick, "thorough": _c01_thorough, "budget_s": {"quick": 170, "thorough": 1500},
+    "quick": _c01_quick, "thorough": _c01_thorough, "budget_s": {"quick": 190, "thorough": 1700},
     "rule": "client programs: T threads x m operations over {acquire+deref, acquire+hold across later operations, acquire_if_equal, copy/assign then reset the original, "
             "move/swap, unlink by CAS + reclaim (replace/remove), two acquires inside a region_guard} on 1-2 shared concurrent_ptr cells, all assignments enumerated "
             "(symmetric duplicates and programs without an unlinker pruned); oracle: ledger (constructed/destroyed per node id) consulted at every dereference through a "
-            "guard, payload integrity, heap lifetime shadow (no access to freed memory, quarantine: freed memory is never reused), race-with-deallocation check",
+            "guard, payload integrity, heap lifetime shadow (no access to freed memory, quarantine: freed memory is never reused), race-with-deallocation check; "
+            "in addition fixed adversarial families: recycle-behind-a-reader (two cells) and ABA-under-acquire_if_equal (three threads, heap in immediate-reuse mode "
+            "so that a new node gets the address of the node just reclaimed)",
     "assumptions": ["reclaimers are instantiated with the most eager reclamation parameters (scan threshold 0, scan_frequency 0) so that a protocol error surfaces inside a short history"],
 }
 LEVEL_TEXT["C01"] = ("all interleavings with <= c preemptions (c=1..2 quick, 2..3 thorough) of all enumerated protocol-conforming 2-3 thread client programs, for 13 "
@@ -224,17 +235,23 @@ PLAN["C12"] = {
     "quick": [run("deque", "grow2", c=0, opt={"thieves": 0, "m": 6, "steal_between": 1, "maxoffset": 5}),
               run("deque", "fixed2", c=0, opt={"thieves": 0, "m": 6, "steal_between": 1, "maxoffset": 3}),
               run("deque", "grow2", c=2, weight=2), run("deque", "fixed2", c=2), run("deque", "grow4", c=1, opt={"m": 4}), run("deque", "grow2", c=3, opt={"offset": 2, "prefill": 2}, weight=2),
-              run("deque", "grow2", c=1, opt={"thieves": 2, "s": 1}), run("deque", "grow2", c=1, mode="wmm", d=1), run("deque", "fixed2", c=1, mode="wmm", d=1)],
+              run("deque", "grow2", c=1, opt={"thieves": 2, "s": 1}), run("deque", "grow2", c=1, mode="wmm", d=1), run("deque", "fixed2", c=1, mode="wmm", d=1)] +
+             # two growths overtaking one steal: full array, three more pushes, at offsets in both halves of the 4C cycle
+             [run("deque", "grow2", c=3, opt={"offset": k, "prefill": 2, "m": 3, "s": 1}, weight=1) for k in (4, 5, 6, 7, 8)],
     "thorough": [run("deque", "grow2", c=0, opt={"thieves": 0, "m": 8, "steal_between": 1, "maxoffset": 5}),
                  run("deque", "grow4", c=0, opt={"thieves": 0, "m": 8, "steal_between": 1, "maxoffset": 7, "prefill": 2}),
                  run("deque", "fixed4", c=0, opt={"thieves": 0, "m": 8, "steal_between": 1, "maxoffset": 5}),
                  run("deque", "grow2", c=3, weight=6), run("deque", "fixed2", c=3, weight=4), run("deque", "grow2", c=2, opt={"thieves": 2, "s": 1}, weight=4),
                  run("deque", "grow2", c=2, opt={"m": 4, "s": 3, "maxoffset": 5}, weight=4), run("deque", "grow4", c=2, opt={"m": 5, "prefill": 2}, weight=4),
                  run("deque", "grow2", c=2, mode="wmm", d=1, weight=4), run("deque", "grow2", c=1, mode="wmm", d=2, W=64, weight=2),
-                 run("deque", "fixed2", c=2, mode="wmm", d=1, weight=3), run("deque", "grow2", c=2, variant="tsanv")],
+                 run("deque", "fixed2", c=2, mode="wmm", d=1, weight=3), run("deque", "grow2", c=2, variant="tsanv")] +
+                [run("deque", "grow2", c=3, opt={"offset": k, "prefill": 2, "m": 3, "s": 1}, weight=1) for k in range(3, 13)] +
+                [run("deque", "grow2", c=3, opt={"offset": k, "prefill": 2, "m": 4, "s": 2}, weight=3) for k in (4, 7)] +
+                [run("deque", "grow4", c=3, opt={"offset": k, "prefill": 4, "m": 5, "s": 1}, weight=3) for k in (8, 11, 13)],
     "budget_s": {"quick": 120, "thorough": 1500},
     "rule": "owner program of m operations over {try_push, try_pop} (all assignments), 1-2 thieves with s try_steal each, index offset 0..5 (push+steal pairs before the "
-            "interesting part, enumerated) and 0..2 prefilled items (enumerated), capacity<2|4> with the growing and the fixed container, final drain; sequential runs: "
+            "interesting part, enumerated) and 0..2 prefilled items (enumerated), capacity<2|4> with the growing and the fixed container, final drain; a fixed family "
+            "'two growths overtake one steal' (full array, 3-5 further pushes against one thief, offsets 3..13 covering both halves of the 4C index cycle, c=3); sequential runs: "
             "all owner sequences to depth 6..8 with an optional steal after every step; oracle: Wing-Gong linearizability against a deque (owner LIFO, thief FIFO, steal "
             "may fail only when empty or overlapping another operation, push fails only on a full fixed container) + returned pointers must be pushed items",
     "assumptions": [],
@@ -388,8 +405,10 @@ PLAN["C11"] = {
               run("vy", "it_tt_i1_hp", c=1, opt={"steps": 2, "keys": 5, "prefill": 31, "readers": 1, "m": 1}, weight=2),
               run("vy", "it_st_s1_hp", c=1, opt={"steps": 2, "keys": 5, "prefill": 31, "readers": 1, "m": 1}, weight=2),
               run("vy", "it_tt_i2_hp", c=1, opt={"steps": 2, "keys": 4, "prefill": 15, "updaters": 1, "m": 1}, weight=2),
-              run("vy", "it_tm_i1_hp", c=1, opt={"steps": 2, "keys": 4, "prefill": 15, "readers": 1, "m": 1}, weight=2)],
+              run("vy", "it_tm_i1_hp", c=1, opt={"steps": 2, "keys": 4, "prefill": 15, "readers": 1, "m": 1}, weight=2)] +
+             [run("vy", t, c=2, weight=2) for t in ["itf_tt_i1_hp", "itf_st_s1_hp"]] + [run("vy", t, c=1, weight=0.5) for t in ["itf_tm_i1_hp", "itf_tn_i1_hp", "itf_tt_i2_hp"]],
     "thorough": [run("vy", t, c=0, opt={"steps": 5, "keys": 5, "prefill": 31}, weight=2) for t in _c11_seq] +
+                [run("vy", "itf_" + t, c=3, weight=3) for t in ["tt_i1_hp", "st_s1_hp", "tm_i1_hp", "tn_i1_hp", "sm_s1_hp", "tt_i1_ebr", "tt_i2_hp"]] +
                 [run("vy", "it_tt_i2_hp", c=0, opt={"steps": 4, "keys": 8, "prefill": 255}, weight=2)] +
                 [run("vy", t, c=1, opt={"steps": 3, "keys": 5, "prefill": 31, "readers": 1, "m": 1}, weight=6) for t in ["it_tt_i1_hp", "it_st_s1_hp", "it_tm_i1_hp", "it_tn_i1_hp"]] +
                 [run("vy", t, c=2, opt={"steps": 2, "keys": 5, "prefill": 31, "readers": 1, "m": 1}, weight=6) for t in ["it_tt_i1_hp", "it_st_s1_hp"]] +
@@ -399,7 +418,8 @@ PLAN["C11"] = {
     "rule": "one iterator thread performs an enumerated sequence (2-5 steps) of {begin, ++, erase(iterator), reset, find(key) move-assigned onto the iterator, ordinary "
             "emplace/erase} (programs that would wait for their own bucket lock are pruned as illegal), on 128-bucket maps whose keys share one or two buckets with populated "
             "extension lists; concurrently 0-1 lock-free readers (try_get_value) and 0-1 writers on enumerated keys; afterwards every key is read, one key per bucket is "
-            "inserted and erased (a leaked bucket lock makes these spin: LIVELOCK verdict) and the map is iterated; oracle: Wing-Gong linearizability of the whole history "
+            "inserted and erased (a leaked bucket lock makes these spin: LIVELOCK verdict) and the map is iterated; a fixed family itf_* (find(victim), erase(iterator), reset "
+            "against one try_get_value(wanted), victim and wanted enumerated over the five keys of a bucket with two extension items) is explored one preemption deeper; oracle: Wing-Gong linearizability of the whole history "
             "with iterator steps interpreted as map operations (yield = find, erase(iterator) = successful erase of exactly that key), full traversal yields every element once",
     "assumptions": [],
 }
